@@ -327,6 +327,19 @@ func (s *BaseNodeService) verifyMessage(fsmInstance *state_machines.FSMInstance,
 		return errors.New("signature is corrupt")
 	}
 
+	// a request can speak only for the participant who signed the message
+	var claim struct{ ParticipantId *int }
+	if err := json.Unmarshal(message.Data, &claim); err == nil && claim.ParticipantId != nil {
+		senderID, err := fsmInstance.GetIDByUsername(message.SenderAddr)
+		if err != nil {
+			return fmt.Errorf("failed to GetIDByUsername: %w", err)
+		}
+		if senderID != *claim.ParticipantId {
+			return fmt.Errorf("message from %s (participant %d) claims to be from participant %d",
+				message.SenderAddr, senderID, *claim.ParticipantId)
+		}
+	}
+
 	return nil
 }
 
